@@ -116,6 +116,7 @@ func (w *world) build() error {
 	cfg := []config.Node{
 		node("hostname", "mx.sim.example"), node("tls", "off"),
 		node("auth", "&creds"), node("sasl_login", "yes"),
+		node("defer_sender_reject", []string{"yes", "no"}[s.T.Choose("scen", 2)]),
 		node("deliver_to", "&sink"),
 	}
 	switch w.mapK {
